@@ -27,7 +27,13 @@ KW_CLASSES = ["kw_bif", "kw_other", "kw_net", "kw_states"]
 
 # =========================================================================== instances (main process, stdlib only)
 def _entry(k):
-    return {"ip": k // SCALE, "dg": [int(c) for c in "%017d" % (k % SCALE)]}
+    """k: units of 1e-17, or (units, extra digit string) for values that need MORE digits than 17 after the point (tiny numbers
+    with a full 16-17 digit mantissa); the extra digits are carried in "xd" (the specification's NET rounding looks at dg only)"""
+    if isinstance(k, tuple):
+        e = _entry(k[0])
+        e["xd"] = [int(c) for c in k[1]]
+        return e
+    return {"ip": k // SCALE, "dg": [int(c) for c in "%017d" % (k % SCALE)], "xd": []}
 
 
 def _tie_free(k):
@@ -57,6 +63,13 @@ def _column(rng, c, style, used):
         if style == "det":
             col = [0] * c
             col[rng.randrange(c)] = SCALE
+            return col
+        if style == "tiny_irr":
+            # tiny entries with a long mantissa, e.g. 3.1415926535897e-12 (exact decimal strings of up to 30 digits)
+            sm = [(x * rng.choice([1, 2, 3]), "".join(str(rng.randrange(10)) for _ in range(12)) + str(rng.randrange(1, 10)))
+                  for x in rng.sample(TINY, c - 1)]
+            col = sm + [SCALE - sum(x[0] for x in sm) - len(sm)]
+            rng.shuffle(col)
             return col
         if style == "tiny":
             sm = [x * rng.choice([1, 1, 2, 3]) for x in rng.sample(TINY, c - 1)]
@@ -137,6 +150,8 @@ def instances(rng, thorough):
         bn_instance(rng, "card1", [1, 3, 2], {2: [0, 1]}, [2]),
         bn_instance(rng, "isolated", [2, 2, 3], {1: [0]}, []),
         bn_instance(rng, "tiny", [3, 2, 2], {1: [0], 2: [0, 1]}, [2], "tiny"),
+        bn_instance(rng, "tiny", [2, 3], {1: [0]}, [], "tiny_irr"),
+        bn_instance(rng, "card1", [1, 1, 3, 2], {2: [0, 1], 3: [0]}, [2]),          # children ALL of whose parents have one state
         bn_instance(rng, "deterministic", [2, 3, 2], {1: [0], 2: [0, 1]}, [2], {0: "generic", 1: "det", 2: "det"}),
         bn_instance(rng, "single", [3], {}, []),
         bn_instance(rng, "card10", [2, 10, 3], {2: [0, 1]}, [2]),
@@ -920,7 +935,7 @@ def roundtrips(payload):
     results, class_text = [], {}
     for ev in payload["events"]:
         inst = insts[str(ev["inst"])]
-        vf = [float("%d.%s" % (e["ip"], "".join(map(str, e["dg"])))) for e in inst["vals"]]
+        vf = [float("%d.%s" % (e["ip"], "".join(map(str, e["dg"] + e.get("xd", []))))) for e in inst["vals"]]
         fmap = {}
         for i, x in enumerate(vf):
             if x in fmap:
